@@ -134,7 +134,19 @@ def extra_node(ctx):
                                      {"commands": [c], "implementation": out[i], "required": "%s %d" % (t[0], r)}, "node16-%d" % i)
             if _enough(ctx):
                 return {}
-    return {"probes_checked_by_scalar_oracle": probes}
+    # known finding D11 (model only: arm64 cannot be executed here): it is reported as long as its refutation
+    # theorem (Proofs/IsaFacts.v: arm64_search16_ignores_len_refuted, about the REGENERATED arm64 program) compiles
+    vo = os.path.join(COQ, "Proofs", "IsaFacts.vo")
+    src = os.path.join(COQ, "Proofs", "IsaFacts.v")
+    refuted = os.path.exists(vo) and os.path.getmtime(vo) >= os.path.getmtime(src) - 1 and \
+        "arm64_search16_ignores_len_refuted" in open(src).read()
+    for k in ctx.known:
+        if k.get("property") == "C10" and k.get("key") == "arm64-search16-ignores-len":
+            if refuted:
+                ctx.known_hits.append(k)
+            else:
+                ctx.stats.setdefault("known_findings_no_longer_failing", []).append("D11")
+    return {"probes_checked_by_scalar_oracle": probes, "arm64_refutation_theorem_compiled": refuted}
 
 # ------------------------------------------------------------------ C11: well-formedness oracle on the implementation's dumps
 
